@@ -78,7 +78,7 @@ def oracle(prog, obs, impl):
                         if k1 and k1 > 0:
                             x = (num / tv - conc_den(subs, before, target[2])) / k1
                             newvol = before['vol'] + x * histcheck.measure(subs, one, 'L') * 10**6
-                            if x > 0 and newvol == before['max'] and not prog.get('tol_k'):
+                            if x > 0 and abs(newvol - before['max']) <= before['max'] * F(1, 10**9) and not prog.get('tol_k'):
                                 fails.append((i, f"dilute to {dsl.conc_str(c)} fills the container exactly ({float(newvol)!r} uL of {float(before['max'])!r} uL) but was refused: {o['exc']} {o.get('msg')}"))
                             elif x > 0 and newvol <= before['max'] * (1 - F(1, 10**4)):
                                 fails.append((i, f"dilute to {dsl.conc_str(c)} needs {float(newvol)!r} uL of the container's {float(before['max'])!r} uL but was refused: {o['exc']} {o.get('msg')}"))
